@@ -305,7 +305,7 @@ func c08TopItems(thorough bool) []cItem {
 			items = append(items, ruleset("x", ruleset(s, dl[(i*7+1)%len(dl)])), ruleset("x", gCat(declItem(c08Decls[i%len(c08Decls)], ";"), ruleset(s, dl[1]), ruleset("& "+s, dl[2]))))
 		}
 	}
-	for _, s := range []string{"* b", "* > b", ".a/*c*/.b", ".a/*c*/ /*d*/.b", "b/**/c", "& /**/> b", "b [c]", "b[c] [d]", "b[ c ]", "b , c", "b ,c", "b, c", "b + c", "b ~ c", "b >c", "b> c"} {
+	for _, s := range []string{"*.b", "*[c]", "*:hover", "*", "*#d", "* b", "* > b", ".a/*c*/.b", ".a/*c*/ /*d*/.b", "b/**/c", "& /**/> b", "b [c]", "b[c] [d]", "b[ c ]", "b , c", "b ,c", "b, c", "b + c", "b ~ c", "b >c", "b> c"} {
 		items = append(items, ruleset("x", ruleset(s, dl[1])), ruleset(s, dl[1]))
 	}
 	// names are reported in lower case, whichever single letter is written in upper case
